@@ -24,6 +24,10 @@ LINES = {
     'unknown_arg': '[7000012.000] <1>  -> wl_surface@4.frobnicate(what?, 12x)',
     # characters some line splitters take for line ends, inside one line of program output
     'chatter_odd_separators': 'report: page 1\x0cpage 2 \x1c \x85 next\u2028last',
+    # lines of blanks only, and text with blanks at both ends: what is passed through of them is the same text either way
+    'blank': '',
+    'blanks': '   \t ',
+    'padded': '   padded text \t',
 }
 COMMANDS = [
     'list', 'list wl_surface', 'list zz_nothing', 'list ~ 2', 'list [', 'list wl_pointer(pressed) ~ 1',
@@ -40,7 +44,7 @@ SCRIPT_START = 24      # universe lines before this index are the fixed prelude
 
 def events(tier):
     evs = [['next'], ['line', 'chatter'], ['line', 'illformed'], ['line', 'chatter_esc'], ['line', 'dup_new'], ['line', 'unknown_arg'],
-           ['line', 'chatter_esc_open'], ['line', 'chatter_odd_separators']]
+           ['line', 'chatter_esc_open'], ['line', 'chatter_odd_separators'], ['line', 'blank'], ['line', 'blanks'], ['line', 'padded']]
     cmds = COMMANDS if tier != 'quick' else COMMANDS
     return evs + [['cmd', c] for c in cmds]
 
@@ -97,6 +101,24 @@ class Pair:
         elif ev[0] == 'line':
             text = LINES[ev[1]]
             fn = lambda s: s.feed_line(text)        # noqa: E731
+        elif ev[0] == 'array':
+            # a message whose array argument comes with its elements (what GDB mode delivers; a log only says array[N])
+            text = ''
+            n, kind = ev[1], ev[2]
+
+            def fn(s):
+                from core import wl
+                from backends.libwayland_debug_output import parse
+                conn_id, _ = parse.message(universe_lines()[0])
+                elems = [wl.Arg.Int((10 + k) if kind == 'two_digit' else (k % 5)) for k in range(n)]
+                if kind == 'states':
+                    msg = wl.Message(7000.03, wl.UnresolvedObject(78, 'xdg_toplevel'), False, 'configure',
+                                     (wl.Arg.Int(640), wl.Arg.Int(480), wl.Arg.Array(elems)))
+                else:
+                    msg = wl.Message(7000.03, wl.UnresolvedObject(77, 'zz_q'), True, 'keys',
+                                     (wl.Arg.Int(5), wl.Arg.Array(elems), wl.Arg.String('tail')))
+                s.parser.handle_message(conn_id, msg)
+                return s.take()
         else:
             text = ev[1]
             fn = lambda s: s.cmd(text)              # noqa: E731
@@ -192,6 +214,14 @@ def gen_long_sessions(tier):
         yield {'history': [['next'], ['cmd', 'matcher ' + expr], ['cmd', 'list ' + expr], ['cmd', 'list ! ' + expr + ' ~ 3'],
                            ['cmd', 'filter ' + expr], ['cmd', 'filter'], ['next'], ['cmd', 'breakpoint ' + expr], ['cmd', 'breakpoint'], ['next'],
                            ['cmd', 'list'], ['cmd', 'list [' + expr]]}
+
+
+def gen_arrays(tier):
+    ns = list(range(0, 40)) + [64, 100, 200, 1000] if tier == 'quick' else list(range(0, 130)) + [200, 1000, 5000]
+    for n in ns:
+        for kind in ('two_digit', 'states'):
+            yield {'history': [['array', n, kind]]}
+            yield {'history': [['cmd', 'filter zz_q, xdg_toplevel'], ['array', n, kind], ['cmd', 'list'], ['array', n + 1, kind], ['cmd', 'list ~ 1']]}
 
 
 def eval_long_session(case):
@@ -431,6 +461,8 @@ def run(run, tier, seed):
     res = explore.prod(lambda: gen_long_sessions(tier), eval_long_session, seed=seed,
                        bound={'accumulating_commands': 6 if tier == 'quick' else 14, 'alternatives_in_one_matcher': 40 if tier == 'quick' else 200})
     run.add_part('long_sessions', res)
+    res = explore.prod(lambda: gen_arrays(tier), eval_long_session, seed=seed, bound={'array_lengths': '0..39, 64, 100, 200, 1000' if tier == 'quick' else '0..129, 200, 1000, 5000'})
+    run.add_part('arrays_with_elements', res)
     # collect what the tool printed with colour on: every event once after the prelude, and in pairs
     seen = set()
     for ev in events(tier):
